@@ -99,9 +99,16 @@ def got_text(cls, run):
 
 
 # ----------------------------------------------------------------------------- run
-def generate(cls, count, shards, wd, seed):
+def generate(cls, count, shards, wd, seed, grid=0):
     per = (count + shards - 1) // shards
     files = []
+    if grid and cls in ('c08', 'c09'):
+        # the deterministic grid (harness/src/numtower.rs grid_c08 / grid_c09): every ordered pair of the boundary
+        # values under every operation, exact values at the edges of double precision against the doubles next to
+        # them, small integers in every representation; every grid-th entry, the offset moves with the seed
+        out = os.path.join(wd, 'grid.ndjson')
+        vlib.harness(['numtower', 'gen', 'op-class=' + cls, 'seed=%d' % seed, 'count=0', 'grid=%d' % grid, 'out=' + out])
+        files.append(out)
 
     def one(i):
         out = os.path.join(wd, 'shard%d.ndjson' % i)
@@ -109,7 +116,7 @@ def generate(cls, count, shards, wd, seed):
         return out
 
     with ThreadPoolExecutor(max_workers=6) as ex:
-        files = list(ex.map(one, range(shards)))
+        files += list(ex.map(one, range(shards)))
     return files
 
 
@@ -174,7 +181,7 @@ def run(pid, tier):
     count, shards = PLAN[tier][pid]
     wd = vlib.workdir('%s-%s' % (pid, tier))
     selfchecked = selfcheck(tier, wd)
-    files = generate(cls, count, shards, wd, vlib.seed())
+    files = generate(cls, count, shards, wd, vlib.seed(), grid=1)
     recs = load(files)
     mism, gl, stats = validate(files, wd)
 
